@@ -1,84 +1,134 @@
 -------------------------------- MODULE Ardop --------------------------------
 (* Mechanism model of the transmit side of transport/ardop (conn.go, tnc.go):  *)
-(* Conn.Write hands a data frame to the TNC and waits for a BUFFER report (or   *)
-(* re-sends on CRCFAULT, three attempts), then takes the flush lock; the        *)
-(* control loop processes the TNC's messages in order and releases the flush    *)
-(* lock when it sees BUFFER 0; Flush waits for the lock to be free.             *)
+(* Conn.Write hands a data frame to the TNC and waits, on a listener it opens  *)
+(* for this call, for the next BUFFER report (or re-sends on CRCFAULT, three    *)
+(* attempts), then takes the flush lock; the control loop processes the TNC's   *)
+(* messages in order, releases the flush lock when it sees BUFFER 0 and then    *)
+(* broadcasts the message; Flush waits for the lock to be free.                 *)
 (*                                                                           *)
-(* Processes: App (Write then Flush), CtrlLoop (one message at a time: update   *)
-(* the connection's buffer count / flush lock, then broadcast to listeners),    *)
-(* TNC (environment: answers a data frame with CRCFAULT, or with BUFFER len     *)
-(* followed later by BUFFER 0).                                                 *)
-EXTENDS Naturals, Sequences, TLC
+(* Processes: App (NWrites calls of Write, then Flush), CtrlLoop, TNC           *)
+(* (environment: answers a data frame with CRCFAULT, or accepts it and reports  *)
+(* BUFFER n; reports BUFFER 0 when its queue has drained - possibly while the   *)
+(* next frame is still on the line, so that the report is about earlier data;   *)
+(* optionally reports progress, BUFFER n' > 0, while it transmits).             *)
+(*                                                                           *)
+(* The host interface used by the library has no acknowledgement that names a   *)
+(* frame: Write takes the first BUFFER report it sees as the answer to its own   *)
+(* frame.  The configurations separate what follows from that:                  *)
+(*   Ardop_safety      one Write, up to 3 CRCFAULTs: all invariants hold.        *)
+(*   Ardop_twowrites   two Writes, no faults: Flush still waits for a BUFFER 0   *)
+(*                     sent after the last frame was accepted.                   *)
+(*   Ardop_lockpositive  named deviation LockOnlyIfPositive (do not take the     *)
+(*                     lock when released by BUFFER 0): FlushAfterBufferZero     *)
+(*                     fails - a BUFFER 0 about the first frame releases the     *)
+(*                     second Write and Flush returns at once.                   *)
+(*   Ardop_stalefault  two Writes, one CRCFAULT: NoAcceptedWriteLost fails in    *)
+(*                     the mechanism as implemented (finding: a report about     *)
+(*                     earlier data releases Write, the CRCFAULT for its own     *)
+(*                     frame arrives afterwards and nobody re-sends).            *)
+(*   Ardop_progress    two Writes, one progress report: FlushAfterBufferZero     *)
+(*                     fails (observation: progress report releases the second   *)
+(*                     Write, the BUFFER 0 about the first frame frees the lock). *)
+(*   Ardop_liveness    observation: a schedule on which Flush never returns.     *)
+EXTENDS Naturals, Sequences, FiniteSets, TLC
 
-CONSTANTS MaxFaults       \* CRCFAULT answers the TNC may give
+CONSTANTS NWrites,              \* calls of Write before Flush
+          MaxFaults,            \* CRCFAULT answers the TNC may give
+          ProgressReports,      \* extra BUFFER n > 0 reports the TNC may send while data is queued
+          LockOnlyIfPositive    \* named deviation
 
 VARIABLES pc,          \* App: "write", "await", "lock", "written", "flushing", "flushed", "failed"
-          attempt,     \* transmissions of the frame so far
-          toTnc,       \* frames in flight to the TNC
-          tncGot,      \* frames the TNC accepted (not faulted)
+          wr,          \* number of the Write call in progress (its frame carries this number)
+          attempt,     \* transmissions of the current frame so far
+          rel,         \* kind of the report that released the current Write
+          returned,    \* Write calls that returned (n, nil)
+          toTnc,       \* frames on the line to the TNC, in order
+          tncGot,      \* frames the TNC accepted
+          lost,        \* frames the TNC answered with CRCFAULT and has not accepted since
           faults,      \* CRCFAULTs given
-          fromTnc,     \* control messages in flight to the host, in order
-          pending0,    \* the TNC still owes a BUFFER 0
-          inbox,       \* messages broadcast to Write's listener, in order
+          q,           \* accepted frames the TNC has not yet reported as drained
+          extra,       \* progress reports sent
+          fromTnc,     \* control messages on the line to the host, in order: [k, got]
+          inbox,       \* messages broadcast to the current Write's listener
           locked,      \* flush lock
-          sawZeroAfterData  \* the control loop processed a BUFFER 0 that the TNC sent after the data arrived
+          zeroGot      \* the largest "got" of a BUFFER 0 the control loop has processed
 
-vars == <<pc, attempt, toTnc, tncGot, faults, fromTnc, pending0, inbox, locked, sawZeroAfterData>>
+vars == <<pc, wr, attempt, rel, returned, toTnc, tncGot, lost, faults, q, extra, fromTnc, inbox, locked, zeroGot>>
+app  == <<pc, wr, attempt, rel, returned>>
+tnc  == <<tncGot, lost, faults, q, extra>>
 
-Init == /\ pc = "write" /\ attempt = 0 /\ toTnc = 0 /\ tncGot = 0 /\ faults = 0 /\ fromTnc = <<>> /\ pending0 = FALSE
-        /\ inbox = <<>> /\ locked = FALSE /\ sawZeroAfterData = FALSE
+Msg(k) == [k |-> k, got |-> Cardinality(tncGot)]
+
+Init == /\ pc = "write" /\ wr = 1 /\ attempt = 0 /\ rel = "" /\ returned = {}
+        /\ toTnc = <<>> /\ tncGot = {} /\ lost = {} /\ faults = 0 /\ q = 0 /\ extra = 0
+        /\ fromTnc = <<>> /\ inbox = <<>> /\ locked = FALSE /\ zeroGot = 0
 
 (* App: send the frame (first time or after CRCFAULT) *)
 Send == /\ pc = "write" /\ attempt < 3
-        /\ toTnc' = toTnc + 1 /\ attempt' = attempt + 1 /\ pc' = "await"
-        /\ UNCHANGED <<tncGot, faults, fromTnc, pending0, inbox, locked, sawZeroAfterData>>
+        /\ toTnc' = Append(toTnc, wr) /\ attempt' = attempt + 1 /\ pc' = "await"
+        /\ UNCHANGED <<wr, rel, returned, tnc, fromTnc, inbox, locked, zeroGot>>
 GiveUp == /\ pc = "write" /\ attempt = 3 /\ pc' = "failed"
-          /\ UNCHANGED <<attempt, toTnc, tncGot, faults, fromTnc, pending0, inbox, locked, sawZeroAfterData>>
+          /\ UNCHANGED <<wr, attempt, rel, returned, toTnc, tnc, fromTnc, inbox, locked, zeroGot>>
 
 (* App: a broadcast message arrives at Write's listener *)
 Await == /\ pc = "await" /\ inbox # <<>>
          /\ inbox' = Tail(inbox)
-         /\ pc' = CASE Head(inbox) = "CRCFAULT" -> "write"
-                    [] Head(inbox) \in {"BUFFER", "BUFFER0"} -> "lock"     \* any BUFFER report: the frame was accepted
-                    [] OTHER -> "await"
-         /\ UNCHANGED <<attempt, toTnc, tncGot, faults, fromTnc, pending0, locked, sawZeroAfterData>>
-TakeLock == /\ pc = "lock" /\ locked' = TRUE /\ pc' = "written"
-            /\ UNCHANGED <<attempt, toTnc, tncGot, faults, fromTnc, pending0, inbox, sawZeroAfterData>>
-StartFlush == /\ pc = "written" /\ pc' = "flushing"
-              /\ UNCHANGED <<attempt, toTnc, tncGot, faults, fromTnc, pending0, inbox, locked, sawZeroAfterData>>
+         /\ LET m == Head(inbox) IN
+            /\ pc' = CASE m.k = "CRCFAULT" -> "write"
+                       [] m.k \in {"BUFFER", "BUFFER0"} -> "lock"     \* any BUFFER report is taken as: the frame was accepted
+                       [] OTHER -> "await"
+            /\ rel' = m.k
+         /\ UNCHANGED <<wr, attempt, returned, toTnc, tnc, fromTnc, locked, zeroGot>>
+TakeLock == /\ pc = "lock"
+            /\ locked' = IF LockOnlyIfPositive /\ rel = "BUFFER0" THEN locked ELSE TRUE
+            /\ returned' = returned \cup {wr} /\ pc' = "written"
+            /\ UNCHANGED <<wr, attempt, rel, toTnc, tnc, fromTnc, inbox, zeroGot>>
+(* the next Write opens a new listener: earlier broadcasts are not seen *)
+NextWrite == /\ pc = "written" /\ wr < NWrites
+             /\ wr' = wr + 1 /\ attempt' = 0 /\ inbox' = <<>> /\ pc' = "write"
+             /\ UNCHANGED <<rel, returned, toTnc, tnc, fromTnc, locked, zeroGot>>
+StartFlush == /\ pc = "written" /\ wr = NWrites /\ pc' = "flushing"
+              /\ UNCHANGED <<wr, attempt, rel, returned, toTnc, tnc, fromTnc, inbox, locked, zeroGot>>
 FlushReturns == /\ pc = "flushing" /\ ~locked /\ pc' = "flushed"
-                /\ UNCHANGED <<attempt, toTnc, tncGot, faults, fromTnc, pending0, inbox, locked, sawZeroAfterData>>
+                /\ UNCHANGED <<wr, attempt, rel, returned, toTnc, tnc, fromTnc, inbox, locked, zeroGot>>
 
 (* TNC: a frame arrives; it is faulted or accepted *)
-TncFault == /\ toTnc > 0 /\ faults < MaxFaults
-            /\ toTnc' = toTnc - 1 /\ faults' = faults + 1 /\ fromTnc' = Append(fromTnc, "CRCFAULT")
-            /\ UNCHANGED <<pc, attempt, tncGot, pending0, inbox, locked, sawZeroAfterData>>
-TncAccept == /\ toTnc > 0
-             /\ toTnc' = toTnc - 1 /\ tncGot' = tncGot + 1 /\ fromTnc' = Append(fromTnc, "BUFFER") /\ pending0' = TRUE
-             /\ UNCHANGED <<pc, attempt, faults, inbox, locked, sawZeroAfterData>>
-TncDrained == /\ pending0 /\ toTnc = 0
-              /\ fromTnc' = Append(fromTnc, "BUFFER0") /\ pending0' = FALSE
-              /\ UNCHANGED <<pc, attempt, toTnc, tncGot, faults, inbox, locked, sawZeroAfterData>>
+TncFault == /\ toTnc # <<>> /\ faults < MaxFaults
+            /\ toTnc' = Tail(toTnc) /\ faults' = faults + 1 /\ lost' = lost \cup {Head(toTnc)}
+            /\ fromTnc' = Append(fromTnc, Msg("CRCFAULT"))
+            /\ UNCHANGED <<app, tncGot, q, extra, inbox, locked, zeroGot>>
+TncAccept == /\ toTnc # <<>>
+             /\ toTnc' = Tail(toTnc) /\ tncGot' = tncGot \cup {Head(toTnc)} /\ lost' = lost \ {Head(toTnc)} /\ q' = q + 1
+             /\ fromTnc' = Append(fromTnc, [k |-> "BUFFER", got |-> Cardinality(tncGot')])
+             /\ UNCHANGED <<app, faults, extra, inbox, locked, zeroGot>>
+TncProgress == /\ q > 0 /\ extra < ProgressReports
+               /\ extra' = extra + 1 /\ fromTnc' = Append(fromTnc, Msg("BUFFER"))
+               /\ UNCHANGED <<app, toTnc, tncGot, lost, faults, q, inbox, locked, zeroGot>>
+TncDrained == /\ q > 0
+              /\ q' = 0 /\ fromTnc' = Append(fromTnc, Msg("BUFFER0"))
+              /\ UNCHANGED <<app, toTnc, tncGot, lost, faults, extra, inbox, locked, zeroGot>>
 
 (* Control loop: take the next message; BUFFER 0 releases the flush lock; then broadcast *)
 Ctrl == /\ fromTnc # <<>>
         /\ LET m == Head(fromTnc) IN
-           /\ locked' = IF m = "BUFFER0" THEN FALSE ELSE locked
-           /\ sawZeroAfterData' = (sawZeroAfterData \/ (m = "BUFFER0" /\ tncGot > 0))
+           /\ locked' = IF m.k = "BUFFER0" THEN FALSE ELSE locked
+           /\ zeroGot' = IF m.k = "BUFFER0" /\ m.got > zeroGot THEN m.got ELSE zeroGot
            /\ inbox' = Append(inbox, m)
         /\ fromTnc' = Tail(fromTnc)
-        /\ UNCHANGED <<pc, attempt, toTnc, tncGot, faults, pending0>>
+        /\ UNCHANGED <<app, toTnc, tnc>>
 
-Next == Send \/ GiveUp \/ Await \/ TakeLock \/ StartFlush \/ FlushReturns \/ TncFault \/ TncAccept \/ TncDrained \/ Ctrl
+Next == Send \/ GiveUp \/ Await \/ TakeLock \/ NextWrite \/ StartFlush \/ FlushReturns
+        \/ TncFault \/ TncAccept \/ TncProgress \/ TncDrained \/ Ctrl
 Spec == Init /\ [][Next]_vars /\ WF_vars(Next)
-FairSpec == Init /\ [][Next]_vars /\ WF_vars(Send) /\ WF_vars(Await) /\ WF_vars(TakeLock) /\ WF_vars(StartFlush) /\ WF_vars(FlushReturns)
-                 /\ WF_vars(TncAccept) /\ WF_vars(TncDrained) /\ WF_vars(Ctrl) /\ WF_vars(GiveUp)
+FairSpec == Init /\ [][Next]_vars /\ WF_vars(Send) /\ WF_vars(Await) /\ WF_vars(TakeLock) /\ WF_vars(NextWrite) /\ WF_vars(StartFlush)
+                 /\ WF_vars(FlushReturns) /\ WF_vars(TncAccept) /\ WF_vars(TncDrained) /\ WF_vars(Ctrl) /\ WF_vars(GiveUp)
 
+InFlight(w) == \E i \in 1..Len(toTnc) : toTnc[i] = w
 (* safety of C14 *)
-WriteCountHonest == pc \in {"written", "flushing", "flushed"} => tncGot >= 1     \* (n, nil) only if the TNC has the bytes
-RetransmitOnCrcFault == attempt <= faults + 1 \/ pc = "failed"                    \* one transmission per fault, plus the first
-FlushAfterBufferZero == pc = "flushed" => sawZeroAfterData
+WriteCountHonest == NWrites = 1 /\ pc \in {"written", "flushing", "flushed"} => 1 \in tncGot  \* (n, nil) only if the TNC has the bytes
+NoAcceptedWriteLost == \A w \in returned : w \in tncGot \/ InFlight(w)                       \* generalisation to several writes
+RetransmitOnCrcFault == \A w \in lost : InFlight(w) \/ (wr = w /\ pc \in {"await", "write", "failed"})  \* the Write that owns a faulted frame is still retrying
+FlushAfterBufferZero == pc = "flushed" => zeroGot = NWrites      \* a BUFFER 0 sent after the last frame was accepted has been processed
 AtMostThreeAttempts == attempt <= 3
 (* liveness that the mechanism does NOT have (observation, outside C14's safety wording): if the control loop processes *)
 (* BUFFER n and BUFFER 0 before Write takes the lock, nobody releases it                                               *)
